@@ -1125,3 +1125,4 @@ benign('benign-c06-tick-len-test', 'C06', 'crates/edp_client/src/connection.rs',
             }""")
 benign('benign-c15-integer-try-from', 'C15', ENCF, "    } else if value >= i32::MIN as i64 && value <= i32::MAX as i64 {\n        buf.put_u8(INTEGER_EXT);\n        buf.put_i32(value as i32);",
        "    } else if let Ok(small) = i32::try_from(value) {\n        buf.put_u8(INTEGER_EXT);\n        buf.put_i32(small);")
+canary('c20-range-bounds-small-only', 'C20', 'crates/edp_elixir_terms/src/range.rs', "        let first = i64_bound(map.get(&first_key)?)?;", "        let first = map.get(&first_key)?.as_integer()?;", 'wide-field-as_integer')
